@@ -546,3 +546,70 @@ def cbp_gen(rng, tier):
         fns = [NS(mapspec=None if rng.random() < 0.7 else f"x[i] -> y{k}[i]") for k in range(rng.randint(0, 4))]
         gens = [[f"f{g}_{j}" for j in range(rng.choice((1, 1, 1, 2, 0, 3)))] for g in range(rng.randint(0, 3))]
         yield {"pipeline": NS(functions=fns, topological_generations=NS(function_lists=gens))}
+
+
+# ---- pipefunc/map/_load.py::load_outputs (C04: what a folder yields for each requested output, in the order asked) -----
+LO = "pipefunc/map/_load.py"
+StoredLV = TRec("StoredLV", {"value": TObj})
+RunInfoLV = TRec("RunInfo", {"rid": TObj})
+RunInfoLV.identity = "rid"
+SStr = TSeq(TStr)
+TLoaded = TUnion("LoadedOutputs", [("one", TObj), ("list", TSeq(TObj))],
+                 to_py=lambda t: t.value if t.tag == "one" else list(t.value),
+                 from_py=lambda x: Tagged("list", tuple(x)) if isinstance(x, list) else Tagged("one", x))
+
+lo_path = Contract("pathlib::Path", params={"p": TObj}, returns=TObj, trusted=True, pure=True,
+                   note="Path(run_folder): a function of its argument")
+lo_runinfo_load = Contract(f"{RI}::RunInfo.load", params={"run_folder": TObj}, returns=RunInfoLV, trusted=True, pure=True,
+                           static=True, note="the run description recorded in the folder (C04's bounded check)")
+lo_init_store = Contract(f"{RI}::RunInfo.init_store", params={"self": RunInfoLV}, returns=TObj, trusted=True, pure=True,
+                         note="the store (name -> storage array / path / direct value) of a recorded run")
+lo_lfs = Contract("pipefunc/map/_run.py::_load_from_store", params={"output_name": TStr, "store": TObj}, returns=StoredLV,
+                  trusted=True, pure=True,
+                  note="here only: a deterministic function of (name, store); its own, strong contract is proved in "
+                       "contracts/store.py (C05)")
+lo_maybe = Contract("pipefunc/map/_run.py::_maybe_load_array", params={"x": TObj}, returns=TObj, trusted=True, pure=True,
+                    note="a storage array is read into a masked array, anything else is handed through (C07)")
+
+
+def _lo_value(S, a, i):
+    """What the statement demands for the i-th requested name."""
+    if S.symbolic:
+        store = S.uf("fn:RunInfo.init_store", TObj, S.uf("fn:RunInfo.load", RunInfoLV, S.uf("fn:Path", TObj, a.run_folder)))
+        return S.uf("fn:_maybe_load_array", TObj, S.uf("fn:_load_from_store", StoredLV, a.output_names[i], store).value)
+    return ("maybe", ("stored", a.output_names[i], ("store", ("path", a.run_folder))))
+
+
+load_outputs_real = Contract(
+    f"{LO}::load_outputs", params={"output_names": SStr, "run_folder": TObj}, vararg="output_names", returns=TLoaded,
+    ensures=lambda S, a, r, post: ({
+        "one name: what the folder holds for it": S.implies(S.len(a.output_names) == 1, lambda: S.and_(
+            S.is_tag(r, "one"), lambda: S.eq(S.untag(r, "one"), _lo_value(S, a, 0)))),
+        "otherwise: a list with one entry per name, in the order asked": S.implies(S.len(a.output_names) != 1, lambda: S.and_(
+            S.is_tag(r, "list"), lambda: S.len(S.untag(r, "list")) == S.len(a.output_names),
+            lambda: S.forall(0, S.len(a.output_names), lambda i: S.eq(S.untag(r, "list")[i], _lo_value(S, a, i))))),
+    } if S.symbolic else {
+        "per name, in the order asked (a single name unwrapped)": r == (
+            _lo_value(S, a, 0) if len(a.output_names) == 1 else [_lo_value(S, a, i) for i in range(len(a.output_names))]),
+    }),
+)
+LOAD_OUTPUTS = [lo_path, lo_runinfo_load, lo_init_store, lo_lfs, lo_maybe, load_outputs_real]
+
+
+def lo_gen(rng, tier):
+    for q in range(200 if tier == "quick" else 2000):
+        yield {"output_names": tuple(rng.choice("abcd") for _ in range(rng.choice((0, 1, 1, 2, 3)))), "run_folder": f"folder{q % 4}"}
+
+
+def lo_call(fn, a):
+    from types import SimpleNamespace as NS
+    import pipefunc.map._load as L
+    saved = (L.Path, L.RunInfo, L._load_from_store, L._maybe_load_array)
+    L.Path = lambda p: ("path", p)
+    L.RunInfo = NS(load=lambda folder: NS(init_store=lambda: ("store", folder)))
+    L._load_from_store = lambda name, store: NS(value=("stored", name, store))
+    L._maybe_load_array = lambda o: ("maybe", o)
+    try:
+        return fn(*a["output_names"], run_folder=a["run_folder"])
+    finally:
+        L.Path, L.RunInfo, L._load_from_store, L._maybe_load_array = saved
